@@ -45,6 +45,7 @@ type COp struct {
 	Role string `json:"role,omitempty"`
 	Arg  string `json:"arg,omitempty"`
 	N    int    `json:"n,omitempty"`
+	Size int    `json:"size,omitempty"` // extra payload bytes (forward / extension / sign)
 }
 
 // C11Plan is one concurrent shim world.
@@ -133,6 +134,9 @@ func genC11(r *sim.Rng, tier string) any {
 				op.Arg = pick(r, []string{"pw", "pw", "other"})
 			case "forward":
 				op.N = pick(r, []int{0, 2, 7, 20, 21, 28, 100, 200})
+			}
+			if (op.Op == "forward" || op.Op == "ext" || op.Op == "sign") && r.Bool(0.25) {
+				op.Size = pick(r, []int{200, 300, 5000, 70000})
 			}
 			if op.Op == "add" && r.Bool(0.3) {
 				op.N = pick(r, []int{3600, 86400, 1 << 30})
@@ -488,6 +492,14 @@ func execC11(t *testing.T, raw json.RawMessage) *sim.Outcome {
 		}
 		h := histOp{Task: task, Idx: idx, Op: op}
 		data := []byte(fmt.Sprintf("tag-%d-%d", task, idx))
+		if (op.Op == "forward" || op.Op == "ext" || op.Op == "sign") && op.Size > 0 {
+			// a larger payload, different for every caller: buffers shared between connections show up as foreign bytes
+			pad := make([]byte, op.Size)
+			for i := range pad {
+				pad[i] = byte(task*31 + idx*7 + i)
+			}
+			data = append(data, pad...)
+		}
 		h.Call = s.Stamp()
 		func() {
 			defer func() {
